@@ -67,6 +67,17 @@ def record_td(spec):
         poly = np.polyval(rng.uniform(-1, 1, size=order + 1), tt)
         qpoly = float(np.linalg.norm(dsp.polynomial_detrend(poly, order=order))) / (float(np.linalg.norm(poly)) + 1e-300)
         ev.append({"t": "detrend", "order": int(order), "n": n, "qdot": traces.q(qdot, 2 ** 30), "qidem": traces.q(qidem, 2 ** 30), "qpoly": traces.q(qpoly, 2 ** 30)})
+        if order <= 3:
+            # complex-valued series (I/Q data): the residual is orthogonal to every real polynomial in both parts
+            xc = x + 1j * (np.cumsum(rng.standard_normal(n)) - 2.0 + 0.01 * t)
+            rc = np.asarray(dsp.polynomial_detrend(xc, order=order))
+            nxc = float(np.linalg.norm(xc))
+            qdc = max(abs(complex(np.sum(rc * tt ** k))) / (nxc * float(np.linalg.norm(tt ** k)) + 1e-300) for k in range(order + 1))
+            rc2 = np.asarray(dsp.polynomial_detrend(rc, order=order))
+            polyc = poly * (1.0 - 0.5j)
+            qpc = float(np.linalg.norm(dsp.polynomial_detrend(polyc, order=order))) / (float(np.linalg.norm(polyc)) + 1e-300)
+            ev.append({"t": "detrend", "order": int(order), "n": n, "qdot": traces.q(qdc, 2 ** 30), "qidem": traces.q(float(np.linalg.norm(rc2 - rc)) / (nxc + 1e-300), 2 ** 30),
+                       "qpoly": traces.q(qpc, 2 ** 30)})
         if spec.get("long") or n >= 400:
             # the same for single-precision samples (the residual is the float64 residual of exactly these numbers)
             x32 = x.astype(np.float32)
